@@ -208,3 +208,22 @@ pub fn closure<const B: usize, const L: usize>(nd: &mut Nd) {
     canon!("C04.closure.saturating_from_u128", Uint::<B, L>::saturating_from(s as u128));
     canon!("C04.closure.wrapping_from_i64", Uint::<B, L>::wrapping_from(s as i64));
 }
+
+/// multiplication-family producers at a narrow width: results are canonical (every operand value)
+pub fn closure_narrow<const B: usize>(nd: &mut Nd) {
+    let m: u64 = (1u64 << B) - 1;
+    let a = Uint::<B, 1>::from_limbs([(nd.u8() as u64) & m]);
+    let b = Uint::<B, 1>::from_limbs([(nd.u8() as u64) & m]);
+    macro_rules! canon {
+        ($label:literal, $e:expr) => {{
+            let r: Uint<B, 1> = $e;
+            chk!(nd, $label, r.as_limbs()[0] <= m);
+        }};
+    }
+    if let Some(i) = a.inv_ring() {
+        canon!("C04.closure.inv_ring", i);
+    }
+    canon!("C04.closure.wrapping_mul", a.wrapping_mul(b));
+    canon!("C04.closure.saturating_mul", a.saturating_mul(b));
+    canon!("C04.closure.overflowing_mul", a.overflowing_mul(b).0);
+}
